@@ -6,6 +6,7 @@ import (
 	"fmt"
 	"os"
 	"path/filepath"
+	"runtime"
 	"sort"
 	"strings"
 	"testing"
@@ -127,6 +128,7 @@ func TestC01History(t *testing.T) {
 	rapid.Check(t, func(t *rapid.T) {
 		root, base := tmpBase(t)
 		defer os.RemoveAll(root)
+		defer runtime.GOMAXPROCS(runtime.GOMAXPROCS(0))
 		s := &c01State{t: t, cfg: vlib.GenConfig(t, 4), base: base, viaYAML: rapid.Bool().Draw(t, "viaYAML"), stale: map[string][]string{}, kinds: map[string]bool{}}
 		s.m = vlib.NewModel(s.cfg)
 		s.reopen()
@@ -257,6 +259,14 @@ func TestC01History(t *testing.T) {
 				s.viaYAML = rapid.Bool().Draw(t, "viaYAML")
 				s.reopen()
 				s.hist = append(s.hist, "reopen")
+			},
+			"cpus": func(t *rapid.T) {
+				// the number of CPUs the process may use changes between a write and a later login (container limits, a restart on
+				// another host): a verdict never depends on it
+				n := rapid.SampledFrom([]int{1, 2, 3, 16}).Draw(t, "gomaxprocs")
+				runtime.GOMAXPROCS(n)
+				vlib.Class("cpu-limit-changed-between-operations")
+				s.hist = append(s.hist, fmt.Sprintf("cpus=%d", n))
 			},
 			"probe":  probe,
 			"probe2": probe,
